@@ -26,12 +26,21 @@ ASSUMPTIONS = [
 BATCHES = [[], [1], [3], [63], [64], [65], [8, 8], [2, 40]]
 
 
+from ..zoo import UNITVECS  # noqa: E402
+
+
 def mat_case(draw, n, m=None, kinds=("int", "dyadic", "complex"), rank=None):
     m = m or n
     kind = draw(st.sampled_from(kinds))
     k = draw(st.integers(1, 4))
     pool = []
+    # every matrix of the batch made of rational unit columns (3/5, 4/5), (2/7, 3/7, 6/7), ... that are not orthogonal in general: such a
+    # matrix looks like a rotation to a test of the column lengths only; one draw for the whole pool
+    allunit = kind == "dyadic" and n == m and rank is None and draw(st.integers(0, 3)) == 0
     for _ in range(k):
+        if allunit:
+            pool.append({"u": [draw(st.integers(0, len(UNITVECS[n]) - 1)) for _ in range(n)], "pat": "unit-columns"})
+            continue
         if rank is not None and rank < min(n, m):
             R = 4
             ent = C.gint(R) if kind == "complex" else C.ints(R)
@@ -65,7 +74,11 @@ def exact_pool(mc):
     div = {"dyadic": Fraction(1, 8), "tiny": Fraction(1, 4096)}.get(mc["kind"], Fraction(1))
     out = []
     for p in mc["pool"]:
-        if "a" in p:
+        if "u" in p:
+            n = len(p["u"])
+            cols = [[Fraction(x, UNITVECS[n][k % len(UNITVECS[n])][1]) for x in UNITVECS[n][k % len(UNITVECS[n])][0]] for k in p["u"]]
+            out.append([[cols[j][i] for j in range(n)] for i in range(n)])
+        elif "a" in p:
             out.append([[conv(x) * div for x in r] for r in p["a"]])
         else:
             b = [[conv(x) for x in r] for r in p["b"]]
@@ -562,6 +575,8 @@ def sq_labels(c):
     out = [f"n{c['n']}", c["mc"]["kind"], "batch>=64" if C.prod(c["batch"]) >= 64 else "batch<64"]
     if c["rank"] is not None:
         out.append("singular")
+    if any(p.get("pat") == "unit-columns" for p in c["mc"]["pool"]):
+        out.append("unit-columns" + (":all-positions" if C.prod(c["batch"]) <= len(c["mc"]["pool"]) else ""))
     if any(p.get("pat") for p in c["mc"]["pool"]):
         out.append("structured-zeros" + (":batch>=64" if C.prod(c["batch"]) >= 64 else ""))
     return out
@@ -573,7 +588,7 @@ LAWS = [
     Law("adjugate", sq_strategy(True), run_adj, sq_nontrivial, sq_labels, {"quick": 250, "thorough": 4000},
         "adjugate vs exact cofactor matrix; A adj(A) = adj(A) A = det(A) I", mandatory=("batch>=64", "batch<64", "singular")),
     Law("inv", sq_strategy(False), run_inv, lambda c: C.prod(c["batch"]) >= 63, sq_labels, {"quick": 400, "thorough": 5000},
-        "inv vs exact inverse of invertible matrices", mandatory=("batch>=64", "batch<64", "structured-zeros:batch>=64")),
+        "inv vs exact inverse of invertible matrices", mandatory=("batch>=64", "batch<64", "structured-zeros:batch>=64", "unit-columns:all-positions")),
     Law("null_space_orth", lowrank_strategy, run_nullspace, lambda c: True,
         lambda c: [f"{c['n']}x{c['m']}", "dim-given" if c["given_dim"] else "dim-auto", "batched" if c["batch"] else "single"],
         {"quick": 300, "thorough": 5000}, "null_space / orth of planted-rank integer products: shape, A N = 0, orthonormality, same range"),
